@@ -13,6 +13,16 @@ Terms
   ('attr', base, name)        ('idx', base, index)     ('ld', base, index, content)   load forwarded from a store on the same path
   ('tup', ...) ('lst', ...)   ('slice', a, b, c)       ('elem', iterable)     ('ref', oid)  object allocated on the path
   ('post', t, n)              opaque object t after the n-th call that may have mutated it
+  ('partial', f, args, kws)   functools.partial value (applied by value)          ('star', t)  *t that could not be spread
+
+Functions are values: module functions, nested functions (defaults evaluated at the `def`), lambdas, functools.partial objects, and library
+functions / operators reached through any binding (`operator.gt`, `np.fmax` under an alias, `from operator import gt`, a function stored in a
+literal tuple / dict / class attribute) are applied where they are called.  Literal tables are data: `for` loops and comprehensions over tuple /
+list / dict / string literals and over enumerate / zip / range / map / reversed of them are unrolled; getattr / setattr / vars()[...] with a
+name that folds to a literal (including `"m" + side`, "%s_x" % name, f-strings and str.format of literals) are attribute accesses.  Index
+spellings are one value: np.s_[a:b] / slice(a, b) / a:b, np.newaxis / None, X[:, c][i] / X[i, c] (loads and stores through a column view),
+x[:n][k] / x[k], np.nonzero(m) / m.nonzero() / np.where(m), np.flatnonzero(m) / m.nonzero()[0]; reductions over a literal pair
+(np.fmax.reduce([a, b]), functools.reduce(f, (a, b)), np.sum([a, b], axis=0), sum((a, b))) are the binary application.
 """
 from __future__ import annotations
 
